@@ -151,6 +151,81 @@ mod proofs {
         std::mem::forget(hpack);
     }
 
+    // CONTINUATION handling (C09 continuity, C18 flood cap; RFC 9113 §6.10): a CONTINUATION frame
+    //   * with no field block in progress                      => connection PROTOCOL_ERROR;
+    //   * on another stream than the block in progress          => connection PROTOCOL_ERROR;
+    //   * that would be the (max+1)-th one without END_HEADERS  => connection ENHANCE_YOUR_CALM (the flood cap), and this
+    //     is decided BEFORE the fragment is buffered or decoded (the partial state is dropped, nothing grows);
+    //   * otherwise (here: empty fragment, below the cap)       => accepted, the block stays in progress and the count
+    //     went up by exactly one.
+    // The stream word, the flags other than END_HEADERS and the cap are symbolic where the decision is taken before HPACK
+    // decoding; the cases that reach the decoder use an empty fragment and concrete counts (max-1, max).
+    fn mk_partial(stream: u32, count: usize) -> Option<Partial> {
+        let h = crate::verif_kani::mk_headers(crate::frame::StreamId::from(stream), false, false);
+        Some(Partial { frame: Continuable::Headers(h), buf: BytesMut::new(), continuation_frames_count: count })
+    }
+
+    // (Symbolic stream words / flags / caps make CBMC explore the HPACK decoder behind the comparisons it cannot decide by
+    // constant propagation — timeout at 600 s — so the rejecting cases are enumerated concretely.)
+    // @harness id=decode_frame_continuation_rejects props=C09,C18,C08 kind=bounded bound=cases:{no_block,other_stream_3_vs_1,cap_5_at_5,cap_7_at_7}x{END_HEADERS_set,clear} tier=quick timeout=600 fn=decode_frame
+    #[kani::proof]
+    #[kani::unwind(4)]
+    fn decode_frame_continuation_rejects() {
+        let mut hpack = hpack::Decoder::new(4096);
+        let mut f = 0;
+        while f < 2 {
+            let flags: u8 = if f == 0 { 0 } else { 0x4 };
+            // no block in progress
+            let mut none: Option<Partial> = None;
+            let r0 = decode_frame(&mut hpack, 16 << 20, 5, &mut none, frame_bytes(9, flags, 1, &[]));
+            assert!(matches!(&r0, Err(e) if { let (k, _, code, who, _) = sig(e); k == 1 && code == 1 && who == 1 }),
+                "framed_read.decode_frame.continuation_without_a_block_in_progress_is_connection_protocol_error");
+            std::mem::forget(r0);
+            // block in progress on stream 1, CONTINUATION on stream 3
+            let mut p = mk_partial(1, 0);
+            let r1 = decode_frame(&mut hpack, 16 << 20, 5, &mut p, frame_bytes(9, flags, 3, &[]));
+            assert!(matches!(&r1, Err(e) if { let (k, _, code, who, _) = sig(e); k == 1 && code == 1 && who == 1 }),
+                "framed_read.decode_frame.continuation_on_another_stream_is_connection_protocol_error");
+            std::mem::forget(r1);
+            std::mem::forget(p);
+            f += 1;
+        }
+        // the cap: count == max already, another non-final CONTINUATION
+        let mut c = 0;
+        while c < 2 {
+            let max = if c == 0 { 5 } else { 7 };
+            let mut p2 = mk_partial(1, max);
+            let r2 = decode_frame(&mut hpack, 16 << 20, max, &mut p2, frame_bytes(9, 0, 1, &[]));
+            assert!(matches!(&r2, Err(e) if { let (k, _, code, who, _) = sig(e); k == 1 && code == 11 && who == 1 }),
+                "framed_read.decode_frame.continuation_beyond_the_cap_is_connection_enhance_your_calm");
+            assert!(p2.is_none(), "framed_read.decode_frame.flood_leaves_no_partial_state_behind");
+            std::mem::forget(r2);
+            c += 1;
+        }
+        kani::cover!(true, "cover.reached");
+        std::mem::forget(hpack);
+    }
+
+    // @harness id=decode_frame_continuation_counts props=C18,C09,C08 kind=bounded bound=empty_fragment,_counts_in_{0,max-1}_for_max=5 tier=quick timeout=600 fn=decode_frame
+    #[kani::proof]
+    #[kani::unwind(4)]
+    fn decode_frame_continuation_counts() {
+        let mut hpack = hpack::Decoder::new(4096);
+        let mut k = 0;
+        while k < 2 {
+            let count = if k == 0 { 0 } else { 4 };
+            let mut p = mk_partial(1, count);
+            let r = decode_frame(&mut hpack, 16 << 20, 5, &mut p, frame_bytes(9, 0, 1, &[]));
+            assert!(matches!(&r, Ok(None)), "framed_read.decode_frame.continuation_below_the_cap_keeps_the_block_in_progress");
+            assert!(matches!(&p, Some(pp) if pp.continuation_frames_count == count + 1), "framed_read.decode_frame.continuation_count_goes_up_by_one");
+            std::mem::forget(r);
+            std::mem::forget(p);
+            k += 1;
+        }
+        kani::cover!(true, "cover.reached");
+        std::mem::forget(hpack);
+    }
+
     // @harness id=frame_kind_new_unknown props=C09,C04 kind=complete tier=quick fn=Kind::new
     #[kani::proof]
     fn frame_kind_new_unknown() {
